@@ -35,6 +35,11 @@ NO_LONG = ('U0', 'U1', 'U2', 'TWO', 'U3', 'UC')
 REDUCED_TINY = {'which': ('U0', 'TWO', 'UC'), 'params': {'two_depth': 1, 'uc_depth': 3}}
 
 
+def window_for(tier, flavour, w):
+    """thorough widens the window to 5 instants for flavours 0 and 1 only; the type/magnitude flavours keep 4"""
+    return w if (tier != 'thorough' or flavour in (0, 1)) else 4
+
+
 def tier_params(tier):
     if tier == 'thorough':
         return dict(w=5, u1_depth=6, u2_depth=3, two_depth=4, u3_depth=2)
@@ -132,7 +137,7 @@ def run_state_property(prop, level, fn, tier, seed, classes=('DynGraph', 'DynDiG
     for fl, reduced in flavours_for(tier, seed, flavours):
         for cls in classes:
             for removal in modes:
-                conf = U.conf_make(cls, removal, fl, p['w'])
+                conf = U.conf_make(cls, removal, fl, window_for(tier, fl, p['w']))
                 if reduced or (not removal and acc_reduced):
                     red = reduced_cfg or REDUCED
                     total, summary = explore_universes(spec, conf, tier, which=[u for u in red['which'] if u in which],
